@@ -718,6 +718,10 @@ theorem suspended_ops_are_silent (f : Font) (L : String) (l : Layer)
         · rw [rename_disabled hget hd hm hne]; rfl
       · simp [rename, hget, hm]
 
+example : (step (step fy (.holdLayer "fg")).1 (.newGlyph "fg" "z")).1.lib = fy.lib ∧
+    layerGlyphs (step (step fy (.holdLayer "fg")).1 (.newGlyph "fg" "z")).1 "fg" = ["a", "b", "z"] := by decide
+example : (step (step fy (.disableLayer "fg")).1 (.delGlyph "fg" "b")).1.lib = fy.lib := by decide
+
 /-- one layer `fg` with three glyphs next to a layer `bg` that shares `c`; a complete order -/
 def fh : Font :=
   { layers := [("fg", { glyphs := ["a", "b", "c"], observed := true }),
@@ -740,6 +744,11 @@ theorem release_delivers_queue (f : Font) (hw : WF f) (L : String) (l : Layer)
     (step f (.releaseLayer L)).1.layers = (setLayer f L { l with held := 0, queue := [] }).layers ∧
     glyphOrder (step f (.releaseLayer L)).1 = specDeliverAll (anyLayerHas f) (glyphOrder f) l.queue :=
   releaseLayer_last hw hget hh hd
+
+example : AL.get? (run fh [.holdLayer "fg", .newGlyph "fg" "z", .delGlyph "fg" "a"]).layers "fg" =
+    some { glyphs := ["b", "c", "z"], observed := true, held := 1, queue := [.added "z", .deleted "a"] } := by decide
+example : glyphOrder (step (run fh [.holdLayer "fg", .newGlyph "fg" "z", .delGlyph "fg" "a"]) (.releaseLayer "fg")).1 =
+    ["b", "c", "z"] := by decide
 
 /-- A release that is not the last one (`held > 1`: nested holds, or `insertGlyph`'s own bracket inside
 a user-level hold) delivers nothing; a release on a layer that is disabled at that moment drops the
